@@ -372,7 +372,7 @@ def check_record_stream(fx, rep, rule, impl, rl):
     mp = [prm["pat"]["name"] for prm in b["params"] if prm.get("pat") and prm["pat"].get("k") == "Bind" and "ProguardMapping" in (prm.get("ty") or "")]
     good = False
     if drv is not None and len(mp) == 1:
-        it = ("adt", "ProguardRecordIter", "ProguardRecordIter", (("slice", mk_field(("in", mp[0]), "source")),))
+        it = ("adt", "ProguardRecordIter", "ProguardRecordIter", ((A.record_iter_field(fx), mk_field(("in", mp[0]), A.mapping_field(fx))),))
         want_fm = ("call", "std::iter::Iterator::filter_map", (it, ("fnref", "std::result::Result::ok")))
         t = drv
         if t[0] == "call" and t[1] == "std::iter::Iterator::peekable" and len(t[2]) == 1:
